@@ -445,12 +445,17 @@ def sorted_res(res):
 
 
 def run_case(case, scratch):
+  if case.get('curated'):
+    v = curated_one(case['curated'], scratch)
+    return [{k: v[k] for k in ('class', 'key', 'message')}] if v else []
   return run_history(case, scratch)[0]
 
 
 # ------------------------------------------------------------------ shrinking
 
 def shrink(case):
+  if case.get('curated'):
+    return
   ops = case['ops']
   for o in minimise.drop_chunks(ops, 1):
     yield dict(case, ops=o)
@@ -574,8 +579,63 @@ def run_batch(seed, batch, tier, scratch):
         vs, info = run_history(c2, scratch)
         S.counters['abort_enumeration_histories'] += 1
         account(S, c2, vs, info, log)
+  if batch == 0:
+    curated(S, log, scratch)
   S.digests.append(log.hexdigest())
   return S
+
+
+CURATED = [
+    # (key, program text with %(db)s, predicate, rows the documentation defines)
+    ('curated:case-insensitive-table-names',
+     '@Engine("sqlite");\n@AttachDatabase("logica_home", "%(db)s");\n'
+     '@Ground(Ab);\nAb(1); Ab(2);\n@Ground(AB);\nAB(10); AB(20);\n'
+     'R("Ab", x) :- Ab(x);\nR("AB", x) :- AB(x);\n',
+     'R', [['AB', 10], ['AB', 20], ['Ab', 1], ['Ab', 2]]),
+    ('curated:column-affinity-of-grounded-table',
+     '@Engine("sqlite");\n@AttachDatabase("logica_home", "%(db)s");\n'
+     '@Ground(P);\nP(ToInt64(x)) :- x in [4];\nP(y) :- y in [3.0, 5.0];\nHalf(x / 2) :- P(x);\n',
+     'Half', [[1.5], [2], [2.5]]),
+]
+
+
+def curated(S, log, scratch):
+  """Fixed inputs found by reading and by sub-agents' exploration rather than by the generator:
+  run on every check so that a genuine, unrepaired defect is reported as what it is (a known
+  finding, listed in known_findings.json) and is noticed when it goes away or changes."""
+  for key, text, pred, want in CURATED:
+    v = curated_one(key, scratch)
+    S.counters['curated_cases'] += 1
+    log.add('curated', key, v is None)
+    if v is not None:
+      S.violations.append(v)
+
+
+def curated_one(wanted_key, scratch):
+  for key, text, pred, want in CURATED:
+    if key != wanted_key:
+      continue
+    lrun.fresh_process()
+    dbpath = os.path.join(scratch, 'curated.db')
+    for f in (dbpath, dbpath + '-journal'):
+      if os.path.exists(f):
+        os.remove(f)
+    got = None
+    try:
+      comp = lrun.compiled(text % {'db': dbpath}, [pred], use_cache=False)
+      _, last = lrun.run_script(sqlworld.World(), comp, pred)
+      got = sqlworld.rows_key(last.result[1])
+    except Exception as e:
+      got = '%s: %s' % (type(e).__name__, str(e)[:200])
+    finally:
+      for f in (dbpath, dbpath + '-journal'):
+        if os.path.exists(f):
+          os.remove(f)
+    if got != sqlworld.rows_key(want):
+      return {'class': 'curated', 'key': key,
+              'message': '%s of the fixed program %s returned %s, defined %s' % (pred, key, got, want),
+              'case': {'curated': key, 'hashseed': 0}}
+  return None
 
 
 def evidence_meta(tier):
